@@ -76,20 +76,20 @@ type listPkg struct {
 const vs = "vsched__"
 
 type rw struct {
-	cfg     Config
-	fset    *token.FileSet
-	src     []byte
-	file    *ast.File
-	tf      *token.File
-	info    *types.Info
-	pkg     *types.Package
-	rep     *Report
-	errs    []string
-	recv2   map[*ast.UnaryExpr]bool // receive expressions that are the sole RHS of a 2-value assignment
-	inSel   map[ast.Node]bool
-	goSite  map[*ast.GoStmt]string
-	nsel    int
-	renamed map[string]int
+	cfg       Config
+	fset      *token.FileSet
+	src       []byte
+	file      *ast.File
+	tf        *token.File
+	info      *types.Info
+	pkg       *types.Package
+	rep       *Report
+	errs      []string
+	recv2     map[*ast.UnaryExpr]bool // receive expressions that are the sole RHS of a 2-value assignment
+	inSel     map[ast.Node]bool
+	goSite    map[*ast.GoStmt]string
+	nsel      int
+	renamed   map[string]int
 	keepAlive []string // original selector expressions of renamed calls (keeps their imports used)
 }
 
@@ -219,7 +219,7 @@ func Rewrite(cfg Config) ([]byte, *Report, error) {
 	return outb, r.rep, nil
 }
 
-func (r *rw) off(p token.Pos) int { return r.tf.Offset(p) }
+func (r *rw) off(p token.Pos) int        { return r.tf.Offset(p) }
 func (r *rw) orig(a, b token.Pos) string { return string(r.src[r.off(a):r.off(b)]) }
 
 func (r *rw) isChan(e ast.Expr) bool {
